@@ -80,7 +80,18 @@ def check(case):
             forms.append(int(A[0]))
         F = None
         for form in forms:
+            # the documented helper swap(s1, s2, A) itself: region A of the two replicas is exchanged, everything else kept
+            from qucumber.observables.entanglement import swap as swap_helper
+            b1, b2 = batch.clone(), torch.roll(batch, 1, 0).clone()
+            r1, r2 = swap_helper(b1.clone(), b2.clone(), form)
+            e1, e2 = b1.clone(), b2.clone()
+            for a in A:
+                e1[:, a], e2[:, a] = b2[:, a], b1[:, a]
+            require(torch.equal(r1, e1) and torch.equal(r2, e2), "swap-helper", f"swap(s1, s2, A) with A={form!r} did not exchange exactly region A between the two replicas")
             obs = SWAP(form)
+            if len(forms) > 1 and form is forms[-1]:
+                obs = SWAP(list(range(n)))
+                obs.A = form                    # the region is a plain public attribute
             held = []
             Fm = torch.zeros(D, D, dtype=torch.double)
             for i in range(D):
